@@ -31,6 +31,7 @@ REQUIRED = {'quick': {'exhaustive_strings': 271452, 'accepted': 3000, 'rejected'
 MONITORS = ('boundary', 'telemetry')
 ALPHABET = '@[]:/.>-01A '
 WS = ' \t\n\r\x0b\x0c'
+WS_KINDS = [' ', ' ', '\t', '\n', '\r\n', '  ']
 
 ACCEPT, REJECT, UNSPEC = 'accept', 'reject', 'unspecified'
 
@@ -283,7 +284,11 @@ def rand_expr(rng):
     if rng.random() < 0.5:
         out = ''
         for c in s:
-            out += c + (' ' if rng.random() < 0.15 else '')
+            out += c + (rng.choice(WS_KINDS) if rng.random() < 0.15 else '')
+        if rng.random() < 0.3:
+            out = rng.choice(WS_KINDS) * rng.randint(1, 3) + out          # leading white space
+        if rng.random() < 0.3:
+            out += rng.choice(['\n', '\r\n', ' ', '\t'])       # an expression read from a file ends with a line end
         s = out
     return s
 
